@@ -55,7 +55,7 @@ def compress (cd : Codecs) (data : Bytes) (format level : Nat) : Option Bytes :=
 
 /-- `SerializeData` -/
 def serializeData (cd : Codecs) (data : Bytes) (format level checksum : Nat) : Option Bytes :=
-  if data.isEmpty then some []
+  if data.isEmpty && Gen.serializeEmptyShortCircuit then some []
   else match compress cd data format level with
     | none => none
     | some c => serializePrecompressed c format checksum
